@@ -33,6 +33,9 @@ def schedule(draw, allow_bah=True):
     if kind == 'weekly':
         wd = draw(st.sampled_from(cal.WEEKDAYS))
         out['weekday'] = wd if draw(st.booleans()) else wd.lower()
+    elif draw(st.sampled_from([False, False, False, True])):
+        # a weekday keyword left in place although the frequency is not weekly: it has no meaning there
+        out['spare_weekday'] = draw(st.sampled_from(cal.WEEKDAYS))
     return out
 
 
